@@ -99,6 +99,10 @@ class ImpR(Imp):
 
     def binop(self, n, env):
         ops = {ast.Add: '+', ast.Sub: '-', ast.Mult: '*', ast.Div: '/'}
+        if isinstance(n.op, ast.Pow) and isinstance(n.right, ast.Constant) and n.right.value in (2, 3, 2.0, 3.0):
+            a, ta = self.expr(n.left, env)
+            a = self.need_real(a, ta, n.left)
+            return '(%s)' % ' * '.join([a] * int(n.right.value)), 'R'
         if type(n.op) not in ops:
             raise Untranslatable('operator in %s' % ast.unparse(n)[:60])
         a, ta = self.expr(n.left, env)
@@ -152,6 +156,19 @@ class ImpR(Imp):
             lean, rt, lead = self.spec.calls[f]
             args = [self.expr(a, env) for a in n.args]
             return '(%s %s)' % (lean, ' '.join(list(lead) + [a for a, _ in args])), rt
+        if f == 'numpy.mod' and len(n.args) == 2 and not n.keywords and isinstance(n.args[1], ast.Constant) and n.args[1].value == 1:
+            a, ta = self.expr(n.args[0], env)
+            a = self.need_real(a, ta, n.args[0])
+            self.notes.append('`numpy.mod(x, 1)` is x − ⌊x⌋')
+            return '(%s - RealLike.floor %s)' % (a, a), 'R'
+        # a method called on a freshly constructed object of a class whose methods are generated: `xEphemeris(a, b, c, d).met_to_phase(t)`
+        if isinstance(n.func, ast.Attribute) and isinstance(n.func.value, ast.Call) and not n.keywords and not n.func.value.keywords:
+            key = '%s(…).%s' % (ast.unparse(n.func.value.func), n.func.attr)
+            if key in self.spec.calls:
+                lean, rt, lead = self.spec.calls[key]
+                cargs = [self.expr(a, env) for a in n.func.value.args]
+                args = [self.expr(a, env) for a in n.args]
+                return '(%s %s)' % (lean, ' '.join([self.need_real(a, t, x) for (a, t), x in zip(cargs + args, list(n.func.value.args) + list(n.args))])), rt
         raise Untranslatable('call %s' % ast.unparse(n)[:80])
 
     def iterable(self, n, env):
@@ -378,6 +395,20 @@ class RSpec(ImpSpec):
 SPECS = [
     RSpec('ixpeobssim.srcmodel.polarization', 'harmonic_addition', 'harmonic_addition', [('params', 'LT3')],
           note='C20: the accumulators of the harmonic addition theorem (flux, numerator and denominator of the phase, the double loop for the squared amplitude)'),
+    # --- the ephemeris (srcmodel/ephemeris.py, C17): every method takes the attributes of `self` as leading parameters (`self_…`: a local of the same name must not capture them)
+    RSpec('ixpeobssim.srcmodel.ephemeris', 'xEphemeris._dt', 'ephemeris_dt', [('self_met0', 'R'), ('met', 'R')], bind={'self.met0': 'self_met0'}),
+    RSpec('ixpeobssim.srcmodel.ephemeris', 'xEphemeris.nu', 'ephemeris_nu', [('self_met0', 'R'), ('self_nu0', 'R'), ('self_nudot0', 'R'), ('self_nuddot', 'R'), ('met', 'R')],
+          bind={'self.nu0': 'self_nu0', 'self.nudot0': 'self_nudot0', 'self.nuddot': 'self_nuddot'}, calls={'self._dt': ('ephemeris_dt', 'R', ['self_met0'])}),
+    RSpec('ixpeobssim.srcmodel.ephemeris', 'xEphemeris.nudot', 'ephemeris_nudot', [('self_met0', 'R'), ('self_nudot0', 'R'), ('self_nuddot', 'R'), ('met', 'R')],
+          bind={'self.nudot0': 'self_nudot0', 'self.nuddot': 'self_nuddot'}, calls={'self._dt': ('ephemeris_dt', 'R', ['self_met0'])}),
+    RSpec('ixpeobssim.srcmodel.ephemeris', 'xEphemeris.met_to_phase', 'ephemeris_met_to_phase', [('self_met0', 'R'), ('self_nu0', 'R'), ('self_nudot0', 'R'), ('self_nuddot', 'R'), ('met', 'R')],
+          bind={'self.nu0': 'self_nu0', 'self.nudot0': 'self_nudot0', 'self.nuddot': 'self_nuddot'}, calls={'self._dt': ('ephemeris_dt', 'R', ['self_met0'])}),
+    RSpec('ixpeobssim.srcmodel.ephemeris', 'xEphemeris.fold', 'ephemeris_fold',
+          [('self_met0', 'R'), ('self_nu0', 'R'), ('self_nudot0', 'R'), ('self_nuddot', 'R'), ('met', 'R'), ('start_met', 'R'), ('phi0', 'R')],
+          bind={'self.nuddot': 'self_nuddot'},
+          calls={'self.nu': ('ephemeris_nu', 'R', ['self_met0', 'self_nu0', 'self_nudot0', 'self_nuddot']), 'self.nudot': ('ephemeris_nudot', 'R', ['self_met0', 'self_nudot0', 'self_nuddot']),
+                 'xEphemeris(…).met_to_phase': ('ephemeris_met_to_phase', 'R', [])},
+          note='C17: the pulse phase of a time: the ephemeris re-referenced at the start of the observation, evaluated at the time, plus the phase offset, modulo one'),
     RSpec('ixpeobssim.evt.event', 'xEventFile.average_deadtime_per_event', 'average_deadtime_per_event', [('ONTIME', 'R'), ('LIVETIME', 'R'), ('num_events', 'R')],
           bind={"self.primary_header.get('ONTIME')": 'ONTIME', "self.primary_header.get('LIVETIME')": 'LIVETIME', 'self.num_events()': 'num_events'},
           skip_stmts=('min_delta_time = numpy.diff(self.time_data()).min()',),
